@@ -34,6 +34,17 @@ for n in (1, 2, 3, 4, 5):
             HARNESSES += [T(n, 1, v, pm, tiers=tv, timeout=3000), T(n, 2, v, pm, tiers=tv, timeout=3000)]
 # crossing the segment boundary (5 -> 6 timers grows, 6 -> 5 shrinks): identity deadline order, in the quick tier
 HARNESSES += [T(5, 0), T(6, 1, 5)] + [T(6, 1, 0, tiers=('thorough',), timeout=3000)]
+PR2 = dict(PR); PR2.update({'SZ_timer_config': 'sizeof(struct dispatch_timer_config_s)', 'OFF_dtc_clock': 'offsetof(struct dispatch_timer_config_s, dtc_clock)', 'OFF_dt_pending_config': 'offsetof(struct dispatch_timer_source_refs_s, dt_pending_config)',
+  'OFF_ds_pending_data': 'offsetof(struct dispatch_timer_source_refs_s, ds_pending_data)', 'OFF_du_timer_flags': 'offsetof(struct dispatch_timer_source_refs_s, du_timer_flags)', 'OFF_du_state': 'offsetof(struct dispatch_timer_source_refs_s, du_state)',
+  'DU_STATE_ARMED': 'DU_STATE_ARMED', 'TIMER_CLOCK_MASK': '_DISPATCH_TIMER_CLOCK_MASK', 'CLOCK_FLAG_UPTIME': 'DISPATCH_TIMER_CLOCK_UPTIME', 'CLOCK_FLAG_MONO': 'DISPATCH_TIMER_CLOCK_MONOTONIC', 'CLOCK_FLAG_WALL': 'DISPATCH_TIMER_CLOCK_WALL'})
+def F(name, define, units, stubs, note, extra=(), **kw):
+    return H(name, 'h_fire.c', units, stubs=['_dispatch_bug', 'libdispatch_tsd_init', 'free'] + stubs, nt=1, heap=1024, defines=['-D' + define] + list(extra), unwind=3, probes=PR2, note=note, **kw)
+HARNESSES += [
+    F('F_compute_missed_16', 'H_MISSED', ['_dispatch_timer_unote_compute_missed'], [], 'real _dispatch_timer_unote_compute_missed: times < 2^16, interval < 2^8 (SAT divider/multiplier)', extra=['-DRANGE=16', '-DIRANGE=8'], timeout=600, backend='cvc5int'),
+    F('F_compute_missed_32', 'H_MISSED', ['_dispatch_timer_unote_compute_missed'], [], 'same, times < 2^32, interval < 2^16', extra=['-DRANGE=32', '-DIRANGE=16'], timeout=600, backend='cvc5int'),
+    F('F_compute_missed_48', 'H_MISSED', ['_dispatch_timer_unote_compute_missed'], [], 'same, times < 2^48, interval < 2^24', extra=['-DRANGE=48', '-DIRANGE=24'], timeout=900, backend='cvc5int', tiers=('thorough',)),
+    F('F_configure', 'H_CONFIGURE', ['_dispatch_timer_unote_configure'], ['_dispatch_timer_unote_resume'], 'real _dispatch_timer_unote_configure: all new settings, all old flags/pending data, armed or not'),
+]
 ASSUMPTIONS = ['one heap operation from an arbitrary heap satisfying the representation invariant (induction step: covers histories of any length); heap sizes 1..6 (first two segments), deadline-heap arrangement: every permutation for n<=4, a sample for n=5, identity for the segment-boundary cases',
                'keys are arbitrary 64-bit values (ties included); allocation of heap segments never fails']
 LEVEL_TEXT = 'placeholder'
